@@ -56,7 +56,8 @@ def run_case(ctx, res, p):
     m = n if Xu is None else Xu.shape[0]
     res.count(f"gp_type={gp}")
     res.count("rank=" + ("None" if rank is None else ("frac" if isinstance(rank, float) else "int")))
-    res.count("Lp=" + ("None" if Lp is None else ("ok" if p.get("lp_ok", True) else "wrong-shape")))
+    res.count("Lp=" + ("None" if Lp is None else ("ok" if p.get("lp_ok", True) else
+                                                   "wrong-shape:%+d,%+d" % tuple(np.array(Lp.shape) - (n if p["effective_gp"] == "full" else np.shape(p["Xu"])[0])))))
     if Xu is not None:
         res.count("m<n" if m < n else ("m=n" if m == n else "m>n"))
     sample = {k: (v if not isinstance(v, np.ndarray) else list(v.shape)) for k, v in p.items() if k != "tree"}
@@ -299,9 +300,11 @@ def gen_case(rng, stream):
     if eff in ("full", "sparse_cholesky", "fixed") and rng.random() < 0.35:
         k = n if eff == "full" else mm
         lp_ok = bool(rng.random() < 0.7)
-        kk = k if lp_ok else k + 1
+        # wrong shapes: too many / too few rows, and the right number of rows with the wrong number of columns
+        rows, cols = (k, k) if lp_ok else [(k + 1, k + 1), (k, k + 1), (k, k - 1), (k + 1, k), (k - 1, k - 1)][rng.integers(5)]
+        kk = max(rows, cols)
         A = rng.normal(size=(kk, kk)) * 0.3
-        Lp = np.tril(A) + np.eye(kk) * (1.0 + rng.random(kk))
+        Lp = (np.tril(A) + np.eye(kk) * (1.0 + rng.random(kk)))[:rows, :cols]
         expect_refusal = not lp_ok
     return {"op": "L", "tree": tree, "X": X, "Xu": Xu, "Lp": Lp, "gp_type": gp, "effective_gp": eff, "rank": rank,
             "jitter": jitter, "expect_refusal": expect_refusal, "lp_ok": lp_ok, "stream": stream}
